@@ -1,7 +1,7 @@
 """Sidecar contracts for esr/generation/utils.py (real file, untouched)."""
 import z3
 from pyvc.engine import Contract, LoopSpec
-from pyvc.values import T, VInt, VTuple, Unsupported
+from pyvc.values import T, VInt, VTuple, HSeq, Unsupported
 
 
 def lo(N, r, P):
@@ -128,6 +128,10 @@ def get_unique_indexes_contract():
         keys = S.seq(d.keys)
         v = z3.Const("v!gu", Label)
         k, q, q2 = z3.Ints("k!gu q!gu q2!gu")
+        if "__slot" in S.st.env:
+            SL = slot(S)                     # verifying the function: the ghost slot function of the loop
+        else:
+            SL = z3.Function(__import__("pyvc.values", fromlist=["fresh_name"]).fresh_name("slot"), Label, z3.IntSort())      # at a call site: some witness
         return [
             ("every element of L is a key of result", z3.ForAll([k], z3.Implies(z3.And(0 <= k, k < L.len), d.has(L.get(k).t)))),
             ("result[v] is an index of L holding v", z3.ForAll([v], z3.Implies(d.has(v), z3.And(0 <= d.val(v).t, d.val(v).t < L.len, L.get(d.val(v).t).t == v)))),
@@ -135,6 +139,8 @@ def get_unique_indexes_contract():
             ("match[v] is the position of v among the keys, for every key",
              z3.ForAll([q], z3.Implies(z3.And(0 <= q, q < keys.len), z3.And(m.has(keys.get(q).t), m.val(keys.get(q).t).t == q)))),
             ("match is defined exactly on the keys", z3.ForAll([v], m.has(v) == d.has(v))),
+            ("every key occurs in the key list (witness: its slot)",
+             z3.ForAll([v], z3.Implies(d.has(v), z3.And(0 <= SL(v), SL(v) < keys.len, keys.get(SL(v)).t == v)))),
         ]
 
     ls = LoopSpec(inv)
@@ -175,3 +181,98 @@ def get_match_indexes_contract():
 
     return Contract("get_match_indexes", {"a": T.list(T.label), "b": T.list(T.label)}, requires=requires, ensures=ensures,
                     raises=lambda S, a, e: z3.BoolVal(False), loops={0: LoopSpec(inv)})
+
+
+# ------------------------------------------------------------------------ duplicate_checker.main: shuffle and re-index (C03)
+def shuffle_region(fnode):
+    """from `uniq, match = utils.get_unique_indexes(all_fun)` to the statement that builds match_idx"""
+    import ast
+    body = fnode.body
+    start = None
+    for k, s in enumerate(body):
+        if isinstance(s, ast.Assign) and isinstance(s.value, ast.Call) and getattr(s.value.func, "attr", None) == "get_unique_indexes":
+            start = k
+            break
+    if start is None:
+        return None
+    out = [body[start]]
+    for s in body[start + 1:]:
+        out.append(s)
+        if isinstance(s, ast.If):
+            # keep the statements of the `if rank == 0:` block up to the one that assigns match_idx
+            for j, b in enumerate(s.body):
+                if isinstance(b, ast.Assign) and getattr(b.targets[0], "id", None) == "match_idx":
+                    import copy
+                    s2 = copy.copy(s)
+                    s2.body = s.body[:j + 1]
+                    s2.orelse = []
+                    out[-1] = s2
+                    return out
+            return None
+    return None
+
+
+def shuffle_contract():
+    """After the unique functions have been shuffled, every function still points at the unique entry that holds its own (canonical) string:
+         uniq_fun[match_idx[f]] == all_fun[f]  for every f,   0 <= match_idx[f] < number of unique entries,
+       and the shuffled unique list is a permutation of the distinct strings (pairwise distinct, same length)."""
+    from pyvc.values import Label, VLabel, HDict, VNone
+
+    def mk_all(eng, st):
+        return eng.fresh(T.list(T.label), "all_fun", st)
+
+    def setup(eng, st, args):
+        c = get_unique_indexes_contract()
+        c.returns = lambda e, s, a: VTuple([e.fresh(T("dict", T.label, T.int, True), "uniq", s), e.fresh(T("dict", T.label, T.int, False), "match", s)])
+        eng.contracts["utils.get_unique_indexes"] = c
+        st.env["rank"] = VInt(0)
+        st.env["seed"] = VInt(z3.Int("seed"))
+        eng.models["np.random.seed"] = lambda e, s, a, k, n: VNone()
+
+        def shuffle(e, s, a, k, node):
+            # in place: a permutation of the entries (A-ext)
+            o = s.heap[a[0].addr]
+            nm = __import__("pyvc.values", fromlist=["fresh_name"]).fresh_name("shuf")
+            P = z3.Function(nm, z3.IntSort(), z3.IntSort())
+            PI = z3.Function(nm + ".inv", z3.IntSort(), z3.IntSort())
+            q = z3.Int("q!sh")
+            n = o.len
+            e.axioms.append(z3.ForAll([q], z3.Implies(z3.And(0 <= q, q < n), z3.And(0 <= P(q), P(q) < n, PI(P(q)) == q)), patterns=[P(q)]))
+            e.axioms.append(z3.ForAll([q], z3.Implies(z3.And(0 <= q, q < n), z3.And(0 <= PI(q), PI(q) < n, P(PI(q)) == q)), patterns=[PI(q)]))
+            g = o.get
+            s.heap[a[0].addr] = HSeq(n, lambda kk: g(P(kk)), numpy=o.numpy, etype=o.etype, note=("shuffled", P, PI))
+            return VNone()
+        eng.models["np.random.shuffle"] = shuffle
+        from pyvc.models import m_np_arange
+        eng.models["np.arange"] = m_np_arange
+
+    def ensures(S, a, res):
+        st = S.st
+        AF = S.seq(a["all_fun"])
+        UF, MI = S.seq(S.var("uniq_fun")), S.seq(S.var("match_idx"))
+        f = z3.Int(__import__("pyvc.values", fromlist=["fresh_name"]).fresh_name("f!sk"))
+        q1, q2 = z3.Int("q1!sk2"), z3.Int("q2!sk2")
+        return [("one match per function", MI.len == AF.len),
+                ("every function points at the unique entry that holds its own string", z3.Implies(z3.And(0 <= f, f < AF.len), z3.And(0 <= MI.get(f).t, MI.get(f).t < UF.len, UF.get(MI.get(f).t).t == AF.get(f).t))),
+                ("the shuffled unique list has no repeated entry", z3.Implies(z3.And(0 <= q1, q1 < q2, q2 < UF.len), UF.get(q1).t != UF.get(q2).t))]
+
+    def inv_lemma(S, st, node=None):
+        """after `inv = {i[j]: j ...}`: inv is defined on every m in [0, n) and i[inv[m]] == m (i is a permutation of 0..n-1: Skolem m, then generalised)"""
+        io = S.seq(S.var("i"))
+        if not (io.note and io.note[0] == "shuffled"):
+            raise Unsupported("i is not a shuffled index array when inv is built")
+        _, P, PI = io.note
+        d = st.heap[S.var("inv").addr]
+        n = io.len
+        fresh_name = __import__("pyvc.values", fromlist=["fresh_name"]).fresh_name
+        m0 = z3.Int(fresh_name("m!sk"))
+        inst = z3.Implies(z3.And(0 <= m0, m0 < n), z3.And(0 <= PI(m0), PI(m0) < n, P(PI(m0)) == m0))     # instance of the permutation axiom
+        goal = lambda mm: z3.Implies(z3.And(0 <= mm, mm < n), z3.And(d.has(mm), 0 <= d.val(mm).t, d.val(mm).t < n, io.get(d.val(mm).t).t == mm))
+        S.eng.oblige(st, "lemma: inv is the inverse permutation: defined on 0..n-1 with i[inv[m]] = m", z3.Implies(inst, goal(m0)), "lemma", node)
+        mq = z3.Int("m!inv")
+        st.assume(z3.ForAll([mq], goal(mq)))
+
+    c = Contract("main", {"all_fun": mk_all}, ensures=ensures, setup=setup, region=shuffle_region, raises=lambda S, a, e: z3.BoolVal(False),
+                 hooks={"inv": inv_lemma})
+    c.region_name = "shuffle: unique list permuted, matches re-indexed"
+    return c
